@@ -47,6 +47,9 @@ def gen_scripts(ctx, scale):
                      else 'm%d' % r.below(4) if x < 86 else 's%d' % r.below(4) if x < 91 else 'r%d' % r.below(5) if x < 96 else 'c')
             ops.append(w)
         cases.append('seq ' + ' '.join(ops))
+    # the same corner schedules and a few random ones on a table with one-byte rows
+    cases += ['seqt ' + c for c in CORNER]
+    cases += ['seqt' + c[3:] for c in cases[len(CORNER):len(CORNER) + 40 * scale]]
     return cases
 
 
@@ -109,7 +112,7 @@ def oracle_seq(case, out):
         if pc != len(det) + len(tab) + len(fls):
             return 'pool holds %d buffers but %d are alive and %d on the free list after %s (reclaimed %s)' % (
                 pc, len(det) + len(tab), len(fls), t, 'twice or while alive' if pc < len(det) + len(tab) + len(fls) else 'never'), False
-        if lv != len(det) + len(tab):
+        if lv != (0 if case.startswith('seqt') else len(det) + len(tab)):
             return 'item destructor count off: %d items alive for %d rows after %s' % (lv, len(det) + len(tab), t), False
     end = dict(kv.split('=') for kv in toks[-1].split('|')[1:])
     if end.get('mm') != '0' or end.get('ad') != '0' or end.get('lv') != '0':
@@ -137,7 +140,7 @@ def model_trace(impl_line):
     for t in impl_line.split():
         if t.startswith('end|'): break
         evs.append(t.split('|')[0])
-    return 'seq ' + ' '.join(evs)
+    return 'seq ' + ' '.join(evs)        # the machine does not care how long a row is
 
 
 def strip_lv(impl_line):
